@@ -109,15 +109,24 @@ def payloadOf (lines : Array (List String)) (toks : List String) (it : Item)
   | .lref .., _ => "lref=ok"
   | _, _ => s!"bytes={cellsHex cells}"
 
+/-- what a running program may have done: every byte of every data/bss/ref/expr item overwritten -/
+def scribble : List (Item × Option Placement) → GMem → GMem
+  | [], g => g
+  | (it, some p) :: rest, g =>
+    match it with
+    | .lref .. => scribble rest g
+    | _ => scribble rest (setSec g p.sec (writeCells (g p.sec) p.off (List.replicate it.plSize (.byte 92))))
+  | (_, none) :: rest, g => scribble rest g
+
 /-- one module = the lines `lo ≤ i < hi` of the case -/
-def runModule (lines : Array (List String)) (lo hi : Nat) : Except String (List String) := do
+def runModule (lines : Array (List String)) (lo hi : Nat) (reloadP : Bool) : Except String (List String) := do
   let mine := (lines.toList.drop lo).take (hi - lo)
   let mut items : List Item := []
   for toks in mine do
     let it ← mkItem lines lo toks
     items := items ++ [it]
   let r := load items
-  let g := link env items
+  let g := if reloadP then relink env items (scribble (items.zip r.pl) (link env items)) else link env items
   let mut out : List String := []
   let mut pos := 0
   for ((it, p), toks) in (items.zip r.pl).zip mine do
@@ -133,30 +142,31 @@ def runModule (lines : Array (List String)) (lo hi : Nat) : Except String (List 
     out := out ++ [s!"sec {s.head} size={s.size}"]
   return out
 
-def runCase (id : String) (lines : Array (List String)) : List String :=
+def runCase (id : String) (flags : String) (lines : Array (List String)) : List String :=
+  let reloadP := (flags.splitOn ",").contains "reload"
   let sep := (List.range lines.size).find? fun i => (lines[i]!).head? == some "module"
   let res : Except String (List String) := do
     match sep with
-    | none => runModule lines 0 lines.size
+    | none => runModule lines 0 lines.size reloadP
     | some k =>
-      let a ← runModule lines 0 k
-      let b ← runModule lines (k + 1) lines.size
+      let a ← runModule lines 0 k reloadP
+      let b ← runModule lines (k + 1) lines.size reloadP
       pure (a ++ ["module"] ++ b)
   match res with
   | .ok out => [s!"case {id}"] ++ out ++ ["end"]
   | .error e => [s!"case {id}", s!"error {e}", "end"]
 
-partial def loop (h : IO.FS.Stream) (cur : Option (String × Array (List String))) : IO Unit := do
+partial def loop (h : IO.FS.Stream) (cur : Option (String × String × Array (List String))) : IO Unit := do
   let line ← h.getLine
   if line.isEmpty then return ()
   let toks := (line.trimAscii.toString.splitOn " ").filter (· ≠ "")
   match toks, cur with
-  | "case" :: id :: _, _ => loop h (some (id, #[]))
-  | ["end"], some (id, ls) =>
-    for l in runCase id ls do IO.println l
+  | "case" :: id :: rest, _ => loop h (some (id, (rest.drop 1).headD "", #[]))
+  | ["end"], some (id, flags, ls) =>
+    for l in runCase id flags ls do IO.println l
     loop h none
   | [], _ => loop h cur
-  | _, some (id, ls) => loop h (some (id, ls.push toks))
+  | _, some (id, flags, ls) => loop h (some (id, flags, ls.push toks))
   | _, none => loop h none
 
 end C14Drv
